@@ -269,7 +269,7 @@ def write_evidence(ctx, coverage, assumptions, violations=0):
     }
     os.makedirs(os.path.join(VERIF, 'evidence'), exist_ok=True)
     p = os.path.join(VERIF, 'evidence', ctx.prop + '.json')
-    tmp = p + '.tmp'
+    tmp = p + f'.tmp{os.getpid()}'
     with open(tmp, 'w') as f:
         json.dump(ev, f, indent=1, default=str)
     validate_evidence(tmp)
